@@ -42,36 +42,45 @@ def phat_of(kind, n):
 
 # ---------------------------------------------------------------------------------------------- enumeration
 
+def _dedupe(X, tol=1e-7):
+    if len(X):
+        _, first = np.unique(np.round(X, 6), axis=0, return_index=True)     # cheap pass: exact repeats (cone apex)
+        X = X[np.sort(first)]
+    out = []
+    for x in X:
+        if not any(np.max(np.abs(x - v)) < tol for v in out):
+            out.append(x)
+    return out
+
+
 def enumerate_vr(A, b, tol=1e-9):
-    """Vertices and extreme rays of P = {x : A x <= b} (P pointed, dimension d <= 4, few rows)."""
+    """Vertices and extreme rays of P = {x : A x <= b} (P pointed, dimension d <= 4, a few dozen rows): every
+    d-subset of rows gives a candidate vertex, every (d-1)-subset a candidate ray direction (batched linear algebra)."""
     A = np.asarray(A, dtype=float)
     b = np.asarray(b, dtype=float)
     m, d = A.shape
-    verts = []
-    for idx in itertools.combinations(range(m), d):
-        M = A[list(idx)]
-        if abs(np.linalg.det(M)) < 1e-10:
-            continue
-        x = np.linalg.solve(M, b[list(idx)])
-        if np.all(A @ x <= b + tol):
-            if not any(np.max(np.abs(x - v)) < 1e-7 for v in verts):
-                verts.append(x)
+    comb = np.array(list(itertools.combinations(range(m), d)), dtype=int)
+    M = A[comb]                                   # (N, d, d)
+    det = np.linalg.det(M)
+    ok = np.abs(det) > 1e-10
+    X = np.linalg.solve(M[ok], b[comb[ok]][:, :, None])[:, :, 0]
+    feas = np.all(X @ A.T <= b + tol, axis=1)
+    verts = _dedupe(X[feas][np.lexsort(np.round(X[feas], 7).T[::-1])])
     rays = []
-    for idx in itertools.combinations(range(m), d - 1):
-        M = A[list(idx)]
+    if d >= 2:
+        comb = np.array(list(itertools.combinations(range(m), d - 1)), dtype=int)
+        M = A[comb]                               # (N, d-1, d)
         _, sv, vt = np.linalg.svd(M)
-        if d - 1 > 0 and (len(sv) < d - 1 or sv[d - 2] < 1e-10):
-            continue
-        r = vt[-1]
-        for sgn in (1.0, -1.0):
-            rr = sgn * r
-            if np.all(A @ rr <= tol) and np.linalg.norm(rr) > 0.5:
-                rr = rr / np.max(np.abs(rr))
-                if not any(np.max(np.abs(rr - q)) < 1e-7 for q in rays):
-                    rays.append(rr)
+        ok = sv[:, d - 2] > 1e-10
+        R = vt[ok][:, -1, :]
+        R = np.concatenate([R, -R])
+        feas = np.all(R @ A.T <= tol, axis=1)
+        R = R[feas]
+        R = R / np.max(np.abs(R), axis=1, keepdims=True)
+        rays = _dedupe(R[np.lexsort(np.round(R, 7).T[::-1])])
     if not verts:
         raise AssertionError('enumerate_vr: no vertex (empty or not pointed)')
-    return np.array(verts), (np.array(rays) if rays else np.zeros((0, d)))
+    return np.array(verts), (np.array(rays) if len(rays) else np.zeros((0, d)))
 
 
 def _dirs(K, phase=0.0):
